@@ -128,5 +128,6 @@ theorem retry_path_fifo (M : Nat) (s s' : Sys) (c : Choice) (h : sysStep M s c =
   | moveLeader b =>
     simp only [sysStep, Option.some.injEq] at h
     rw [← h]; exact same rfl
+  | closeW w => obtain ⟨_, rfl⟩ := closeW_spec h; exact same rfl
 
 end Lemmas.C02sys
